@@ -26,6 +26,7 @@ PREDS = {
     "SerialFresh", "SerialIncreasing", "serial-failed",
     "ExactlyOneActive", "RootSetAtomic", "RootSetAtomic/config-without-roots", "RootSetAtomic/roots-without-config",
     "rotate-state", "failed-rotate-keeps-roots", "reconfig-keeps-roots", "sign-keeps-roots",
+    "signer-is-active", "probe-issued", "rotate-unraced-succeeds",
 }
 # conformance predicates outside C12's statement (honest result / exact index of conditional CA writes is C10's view);
 # counted in the evidence, never a C12 verdict
@@ -53,6 +54,12 @@ DOC = {
     "RootSetAtomic/roots-without-config": "the composite SetRootsAndConfig never stores its roots without its configuration",
     "rotate-state": "a successful rotation keeps every old root (inactive) and adds exactly one new, active root",
     "sign-keeps-roots": "signing never changes roots or configuration",
+    "signer-is-active": "after sign / rotate / reconfig the root the CAManager signs with (its provider root) is the store's active root",
+    "failed-rotate-keeps-roots": "a (re)configuration that reports an error - e.g. because a RacingRootWrite made its conditional write "
+                                 "stale - leaves root set and configuration alone and keeps signing with the root it signed with before",
+    "probe-issued": "right after every rotate / reconfig (succeeded or failed) the manager issues a probe leaf for a plain service identity; "
+                    "that leaf is judged with all leaf predicates against the store's ACTIVE root",
+    "rotate-unraced-succeeds": "a rotation that nobody raced succeeds",
 }
 
 ASSUMPTIONS = [
@@ -64,6 +71,9 @@ ASSUMPTIONS = [
     "named deviation AgentCSRTrustDomainRewritten: agent CSRs from any trust domain are accepted and must be rewritten to the cluster's",
     "server identities with acl:write and agent identities with a non-default partition: statement silent, either outcome accepted",
     "root sets in a request are keyed by id (a request listing the same root id twice is outside the model)",
+    "RacingRootWrite fault: a CAOpSetRoots re-writing the current roots at the current index is committed (through the delegate's "
+    "BeforeApply hook) just before the manager's own CAOpSetRootsAndConfig / CAOpSetRoots gets its index, like Server.pruneCARoots could",
+    "agent CSRs whose URI authority is [host], host. or an IPv6 literal may be rejected by crypto/x509 at CSR parse: either outcome accepted",
 ]
 
 DEPTH = {
@@ -86,6 +96,8 @@ def cmd_kind(c):
     if c["t"] == "sign":
         u = c["csr"]["uris"]
         return "sign[%s]" % (u[0]["kind"] if len(u) == 1 else "uris=%d" % len(u))
+    if c["t"] in ("rotate", "reconfig") and c.get("race"):
+        return c["t"] + "[race]"
     return c["t"]
 
 
@@ -126,7 +138,7 @@ def nontrivial_key(e):
         rs = c.get("roots", [])
         return (c["t"], c.get("cas", -1) == pre["ridx"], c.get("ccas", -1) == pre["cfg"]["mi"], c.get("ccas", -1) == 0,
                 sum(1 for x in rs if x["active"]), len(rs), r.get("ok"), "via" in c)
-    return (c["t"], r["t"])
+    return (c["t"], r["t"], r.get("raced"), c.get("via"))
 
 
 def judge(tp, rows, verdict, stats):
@@ -136,8 +148,11 @@ def judge(tp, rows, verdict, stats):
         stats["nontrivial"].add(json.dumps(nontrivial_key(e)))
         if c["t"] == "sign":
             stats["issued" if res["t"] == "issued" else "refused"] += 1
-        elif c["t"] == "rotate" and res["t"] == "ok":
-            stats["rotations"] += 1
+        elif c["t"] == "rotate":
+            if res.get("raced"):
+                stats["raced_rotations"] += 1
+            elif res["t"] == "ok":
+                stats["rotations"] += 1
         elif c["t"] in ("set-roots", "set-roots-and-config"):
             if "via" in c:
                 stats["manager_root_ops"] += 1
@@ -170,7 +185,7 @@ def run(tier):
     d = DEPTH[tier]
     cov = {"mc": [], "gen": [], "random": []}
     stats = {"nontrivial": set(), "issued": 0, "refused": 0, "rotations": 0, "stale_root_cas": 0, "applied_root_sets": 0,
-             "manager_root_ops": 0, "hits": {}, "info": {}}
+             "manager_root_ops": 0, "raced_rotations": 0, "hits": {}, "info": {}}
     states = transitions = n_beh = 0
     samples = []
     try:
@@ -222,11 +237,11 @@ def run(tier):
             if len(samples) < 6 and e["cmd"]["t"] in ("sign", "set-roots-and-config") and "via" not in e["cmd"] \
                     and (len(samples) % 2 == 0) == (e["res"]["t"] == "issued" or e["res"].get("ok") == "yes"):
                 samples.append({"source": e["src"], "cmd": e["cmd"], "impl_result": e["res"]})
-        # vacuity: the antecedents of the judgements must have been exercised on the real code
-        for k in ("issued", "refused", "rotations", "stale_root_cas", "applied_root_sets", "manager_root_ops"):
-            if stats[k] == 0:
-                raise vf.Infra("vacuous run: no %s case was executed against the real code" % k)
         n_new = verdict.finish()
+        # vacuity: the antecedents of the judgements must have been exercised on the real code (a violation is reported first)
+        for k in ("issued", "refused", "rotations", "raced_rotations", "stale_root_cas", "applied_root_sets", "manager_root_ops"):
+            if stats[k] == 0 and not n_new:
+                raise vf.Infra("vacuous run: no %s case was executed against the real code" % k)
         coverage = {
             "states": states, "transitions": transitions,
             "traces_validated_against_impl": n_beh, "impl_steps_validated": len(rows),
@@ -237,7 +252,8 @@ def run(tier):
                     "distinct (CSR shape classes x SAN kinds x granted scope kinds x outcome) and (CA command x CAS relation x root-set "
                     "validity x outcome) tuples actually executed",
             "model_check": cov["mc"], "generation": cov["gen"], "random": cov["random"],
-            "impl_counts": {k: stats[k] for k in ("issued", "refused", "rotations", "stale_root_cas", "applied_root_sets", "manager_root_ops")},
+            "impl_counts": {k: stats[k] for k in ("issued", "refused", "rotations", "raced_rotations", "stale_root_cas", "applied_root_sets",
+                                                   "manager_root_ops")},
             "predicates": sorted(PREDS), "predicate_doc": DOC,
             "rejected_steps_by_predicate": stats["hits"],
             "conformance_outside_C12_view": {"predicates": sorted(INFO_PREDS), "rejected_steps": stats["info"],
@@ -318,11 +334,14 @@ def selftest():
         def mut_td(rs): rs[i_ok]["res"]["cert"]["ids"][0]["td"] = "foreign"
         def mut_issue(rs): rs[i_no]["res"] = copy.deepcopy(rs[i_ok2]["res"]); rs[i_no]["res"]["cert"]["serial"] += 1
         def mut_two_active(rs): rs[i_rot]["post"]["roots"] = [dict(x, active=True) for x in rs[i_rot]["post"]["roots"]]
+        def mut_signer(rs): rs[i_rot]["post"]["signer"] = "not-the-active-root"
+        def mut_probe(rs): rs[i_rot]["res"]["probe"]["cert"]["issuer_active"] = False
         def mut_partial(rs): rs[comp]["post"]["roots"] = rs[comp]["pre"]["roots"]; rs[comp]["post"]["ridx"] = rs[comp]["pre"]["ridx"]
         cases = [("isca", mut_isca, i_ok, "leaf-not-ca"), ("serial-reuse", mut_serial, i_ok2, "SerialFresh"),
                  ("chain", mut_chain, i_ok2, "leaf-chain"), ("identity", mut_ident, i_ok, "leaf-identity"),
                  ("trust-domain", mut_td, i_ok, "leaf-trust-domain"), ("issued-without-grant", mut_issue, i_no, "must-refuse/scope"),
                  ("two-active-roots", mut_two_active, i_rot, "ExactlyOneActive"),
+                 ("signer-not-active", mut_signer, i_rot, "signer-is-active"), ("probe-chain", mut_probe, i_rot, "leaf-chain"),
                  ("config-without-roots", mut_partial, comp, "RootSetAtomic/config-without-roots")]
         failed = 0
         for tag, mut, idx, pred in cases:
